@@ -1,9 +1,23 @@
 """C04 - every key and value is destroyed exactly once (mode B drop ledger, see fv/seqcheck.py)."""
 from ._seq import run_property
+from ._conc import conc_extra
+from ..concheck import ConcScenario
+
+
+def conc(tier):
+    th = tier == 'thorough'
+    return [
+        # the bin crosses the treeify threshold while another writer changes its head
+        ConcScenario('treeify/insert-vs-remove-head', hasher='const', capacity=40, prefill=list(range(8)), threads=[[('insert', 8)], [('remove', 0)]], preemptions=2, yield_loads=th),
+        ConcScenario('treeify/insert-vs-insert', hasher='const', capacity=40, prefill=list(range(8)), threads=[[('insert', 8)], [('insert', 9)]], preemptions=2, yield_loads=th),
+        ConcScenario('list/replace-vs-remove', hasher='identity', capacity=2, prefill=[0, 4], threads=[[('insert', 4)], [('remove', 4)]], preemptions=2),
+        ConcScenario('empty-bin/insert-same-key', hasher='identity', capacity=2, prefill=[0], threads=[[('insert', 1)], [('insert', 1)]], preemptions=2),
+    ]
 
 
 def run(tier: str) -> int:
     return run_property('C04', tier, 'model_checking',
                         {'operations': 'as C02 (core alphabet of 8 operation kinds in quick); every scenario ends with guard drop, drop(map) and release of everything retired',
                          'ledger': 'every key/value instance (incl. clones made by transfer / treeify / untreeify) must be dropped exactly once; a refused try_insert value must come back intact and undropped; no allocation may remain'},
-                        ['drop glue is executed by the interpreter: crate Drop impls (HashMap, Table, TreeBin) run from MIR, fields are dropped recursively'])
+                        ['drop glue is executed by the interpreter: crate Drop impls (HashMap, Table, TreeBin) run from MIR, fields are dropped recursively'],
+                        extra=conc_extra('C04', conc, None, 'every instance dropped exactly once (incl. the key of a failed CAS retry), nothing leaked'))
